@@ -1,6 +1,8 @@
 //! vh — the Rust side of the binding between ClapSpec (TLA+) and clap.
 //! Every subcommand reads/writes NDJSON or a JSON report; see /verif/DESIGN.md §3.
+mod def;
 mod lex;
+mod parse;
 mod util;
 mod values;
 mod wrap;
@@ -36,6 +38,9 @@ fn main() {
         "c04-ranged-replay" => values::c04_ranged_replay(&input, &out, &div),
         "c04-other-replay" => values::c04_other_replay(&input, &out, &div),
         "c04-access-replay" => values::c04_access_replay(&input, &out, &div),
+        "gate" => parse::gate(&arg(&args, "--defs", ""), &out),
+        "parse-replay" => parse::parse_replay(&arg(&args, "--defs", ""), &input, &out, &div, arg(&args, "--threads", "8").parse().unwrap()),
+        "parse-record" => parse::parse_record(&arg(&args, "--defs", ""), seed, n, arg(&args, "--maxlen", "12").parse().unwrap(), &out),
         "c04-record" => values::c04_record(seed, n, &out),
         "c20-replay" => wrap::c20_replay(&input, &out, &div),
         "c20-record" => wrap::c20_record(seed, n, arg(&args, "--maxlen", "120").parse().unwrap(), &out),
